@@ -1317,7 +1317,8 @@ def run(ck):
             # any, is looked for by the spec oracle on that very run and on longer runs of the same problem
             found = False
             for mult in (1, 4, 16):
-                q = p.clone(mode="run", budget=max(200, p.budget * 30 * mult), pollcap=10 ** 6, tag="lockstep-search")
+                q = p.clone(mode="run", budget=min(20000, max(200, p.budget * 30 * mult)), pollcap=10 ** 6, tag="lockstep-search",
+                            costthr=None)
                 if not judge(ck, hbin, q):
                     found = True
                     break
